@@ -3,7 +3,13 @@ Properties of the point-cloud writer model (E57/Model/Writer.lean).  Core Lean o
 
   A  bounds are the exact minimum / maximum of the values added
        foldMin_spec foldMax_spec foldMin_first foldMax_first (generic order, `StrictOn`/`StrictWeakOn`)
+       foldMin_mem foldMax_mem (no hypothesis on the order)
+       A1-F (doubles; a NaN is never taken as a bound, repair "NaN is not a bound"): foldMinF_eq foldMaxF_eq
+       (the fold of updMinF/updMaxF = generic fold over `nonNaN vs`), foldMinF_spec foldMaxF_spec foldMinF_first,
+       foldMinF_not_nan, foldMinF_eq_none, bounds_order_independent_of_nan (foldMinF_insert_nan …);
+       old behaviour as documentation: foldMin_poisoned foldMax_poisoned foldMin_later_ignored
        foldMin_int foldMax_int (index bounds), foldBounds_exact, bounds_exact (writer), xMin_is_minimum …
+       nan_never_a_bound (writer), xBounds_independent_of_nan_point, nan_point_moves_no_x_bound, xBounds_congr
        updateAllBounds_no_panic, updateAllBounds_no_err_partial
   B  values that cannot be stored are rejected with an error and change nothing
        addPoint_rejects addPoint_err_no_state addPoint_ok_implies PcW.new_rejects
@@ -243,6 +249,236 @@ theorem foldMax_first {α : Type} {S : α → Prop} {lt : α → α → Bool} (h
       (∀ v ∈ pre, lt v m = true) ∧ (∀ v ∈ post, lt m v = false) := by
   rw [foldMax_eq_flip]
   exact foldMin_first h.flip vs hS hne
+
+/-! ### the result of the fold is one of the values (no hypothesis on the order) -/
+
+theorem foldl_updMinG_mem {α : Type} (lt : α → α → Bool) (vs : List α) : ∀ (c : Option α) (m : α),
+    vs.foldl (fun cur v => updMinG lt v cur) c = some m → c = some m ∨ m ∈ vs := by
+  induction vs with
+  | nil => intro c m h; exact .inl h
+  | cons x xs ih =>
+    intro c m h
+    rw [List.foldl_cons] at h
+    rcases ih _ m h with h1 | h1
+    · cases c with
+      | none => simp only [updMinG, Option.some.injEq] at h1; exact .inr (by simp [h1])
+      | some c0 =>
+        simp only [updMinG] at h1
+        split at h1
+        · simp only [Option.some.injEq] at h1; exact .inr (by simp [h1])
+        · exact .inl h1
+    · exact .inr (by simp [h1])
+
+/-- whatever the relation `lt`, a stored minimum is one of the values added -/
+theorem foldMin_mem {α : Type} (lt : α → α → Bool) (vs : List α) (m : α) (h : foldMin lt vs = some m) :
+    m ∈ vs := by
+  rcases foldl_updMinG_mem lt vs none m h with h1 | h1
+  · cases h1
+  · exact h1
+
+theorem foldMax_mem {α : Type} (lt : α → α → Bool) (vs : List α) (m : α) (h : foldMax lt vs = some m) :
+    m ∈ vs := by
+  rw [foldMax_eq_flip] at h; exact foldMin_mem _ vs m h
+
+theorem foldMin_eq_none {α : Type} (lt : α → α → Bool) (vs : List α) : foldMin lt vs = none ↔ vs = [] := by
+  cases vs with
+  | nil => simp [foldMin]
+  | cons x xs =>
+    simp only [reduceCtorEq, iff_false]
+    intro h
+    have : ∀ (l : List α) (c : α), l.foldl (fun cur v => updMinG lt v cur) (some c) ≠ none := by
+      intro l
+      induction l with
+      | nil => intro c hc; cases hc
+      | cons y ys ih =>
+        intro c
+        rw [List.foldl_cons]
+        simp only [updMinG]
+        split
+        · exact ih y
+        · exact ih c
+    exact this xs x h
+
+theorem foldMax_eq_none {α : Type} (lt : α → α → Bool) (vs : List α) : foldMax lt vs = none ↔ vs = [] := by
+  rw [foldMax_eq_flip]; exact foldMin_eq_none _ vs
+
+/-! ### the OLD behaviour (before the repair "NaN is not a bound"), as documentation
+
+`update_min`/`update_max` used to take the first value unconditionally.  A first value that compares
+false with everything (a NaN) then stayed for good, while the same value later in the sequence was
+ignored: the stored bound depended on WHERE the NaN occurred.  Generic in `lt`, so no fact about
+`Float` is needed. -/
+
+theorem foldl_updMinG_stuck {α : Type} (lt : α → α → Bool) (a : α) (h : ∀ x, lt x a = false) :
+    ∀ (vs : List α), vs.foldl (fun cur v => updMinG lt v cur) (some a) = some a
+  | [] => rfl
+  | x :: xs => by
+    rw [List.foldl_cons]; simp only [updMinG, h x, Bool.false_eq_true, if_false]
+    exact foldl_updMinG_stuck lt a h xs
+
+/-- old behaviour: an incomparable FIRST value poisons the minimum … -/
+theorem foldMin_poisoned {α : Type} (lt : α → α → Bool) (a : α) (h : ∀ x, lt x a = false) (vs : List α) :
+    foldMin lt (a :: vs) = some a := foldl_updMinG_stuck lt a h vs
+
+theorem foldMax_poisoned {α : Type} (lt : α → α → Bool) (a : α) (h : ∀ x, lt a x = false) (vs : List α) :
+    foldMax lt (a :: vs) = some a := by
+  rw [foldMax_eq_flip]; exact foldMin_poisoned _ a h vs
+
+/-- … while the same value after a first one is ignored -/
+theorem foldMin_later_ignored {α : Type} (lt : α → α → Bool) (a : α) (h : ∀ x, lt a x = false)
+    (x : α) (l₁ l₂ : List α) : foldMin lt (x :: l₁ ++ a :: l₂) = foldMin lt (x :: l₁ ++ l₂) := by
+  unfold foldMin
+  rw [List.foldl_append, List.foldl_append, List.foldl_cons]
+  have : ∀ (l : List α) (c : α), ∃ c', l.foldl (fun cur v => updMinG lt v cur) (some c) = some c' := by
+    intro l
+    induction l with
+    | nil => intro c; exact ⟨c, rfl⟩
+    | cons y ys ih =>
+      intro c; rw [List.foldl_cons]; simp only [updMinG]
+      split
+      · exact ih y
+      · exact ih c
+  obtain ⟨c', hc'⟩ := this l₁ x
+  rw [List.foldl_cons] at *
+  simp only [updMinG] at hc' ⊢
+  rw [hc']
+  simp only [h c', Bool.false_eq_true, if_false]
+
+/-! ## A1-F: on `f64` a NaN is never taken as a bound
+
+`updMinF`/`updMaxF` (the repaired `update_min`/`update_max` on doubles) return at once for a value
+that cannot be compared with itself.  The fold over ANY sequence of doubles is therefore the generic
+fold over its non-NaN values, wherever the NaNs stand. -/
+
+/-- the values that are not NaN, in their order -/
+def nonNaN (vs : List UInt64) : List UInt64 := vs.filter (fun v => !fltIsNaN v)
+
+/-- the property on which IEEE `<` is a strict order -/
+abbrev NotNaN (v : UInt64) : Prop := fltIsNaN v = false
+
+def foldMinF (vs : List UInt64) : Option UInt64 := vs.foldl (fun cur v => updMinF v cur) none
+def foldMaxF (vs : List UInt64) : Option UInt64 := vs.foldl (fun cur v => updMaxF v cur) none
+
+theorem mem_nonNaN {v : UInt64} {vs : List UInt64} : v ∈ nonNaN vs ↔ v ∈ vs ∧ fltIsNaN v = false := by
+  simp [nonNaN]
+
+theorem nonNaN_notNaN (vs : List UInt64) : ∀ v ∈ nonNaN vs, NotNaN v := fun _ hv => (mem_nonNaN.1 hv).2
+
+theorem nonNaN_append (a b : List UInt64) : nonNaN (a ++ b) = nonNaN a ++ nonNaN b := by
+  simp [nonNaN]
+
+theorem nonNaN_cons_nan {x : UInt64} (h : fltIsNaN x = true) (l : List UInt64) : nonNaN (x :: l) = nonNaN l := by
+  simp [nonNaN, h]
+
+theorem nonNaN_cons_ok {x : UInt64} (h : fltIsNaN x = false) (l : List UInt64) :
+    nonNaN (x :: l) = x :: nonNaN l := by
+  simp [nonNaN, h]
+
+theorem nonNaN_eq_nil {vs : List UInt64} : nonNaN vs = [] ↔ ∀ v ∈ vs, fltIsNaN v = true := by
+  simp [nonNaN]
+
+/-- without NaNs nothing is filtered (the statements before the repair are the special case) -/
+theorem nonNaN_eq_self {vs : List UInt64} (h : ∀ v ∈ vs, fltIsNaN v = false) : nonNaN vs = vs := by
+  simp only [nonNaN, List.filter_eq_self]
+  intro v hv; simp [h v hv]
+
+/-- inserting any block of NaNs anywhere leaves the non-NaN values as they were -/
+theorem nonNaN_insert (l₁ l₂ nans : List UInt64) (h : ∀ v ∈ nans, fltIsNaN v = true) :
+    nonNaN (l₁ ++ nans ++ l₂) = nonNaN (l₁ ++ l₂) := by
+  rw [nonNaN_append, nonNaN_append, nonNaN_eq_nil.2 h, List.append_nil, nonNaN_append]
+
+theorem foldl_updMinF (vs : List UInt64) : ∀ (c : Option UInt64),
+    vs.foldl (fun cur v => updMinF v cur) c = (nonNaN vs).foldl (fun cur v => updMinG fltLt v cur) c := by
+  induction vs with
+  | nil => intro c; rfl
+  | cons x xs ih =>
+    intro c
+    rw [List.foldl_cons, ih]
+    cases hx : fltIsNaN x with
+    | true => rw [nonNaN_cons_nan hx]; simp only [updMinF, hx, if_true]
+    | false => rw [nonNaN_cons_ok hx, List.foldl_cons]; simp only [updMinF, hx, Bool.false_eq_true, if_false]
+
+theorem foldl_updMaxF (vs : List UInt64) : ∀ (c : Option UInt64),
+    vs.foldl (fun cur v => updMaxF v cur) c = (nonNaN vs).foldl (fun cur v => updMaxG fltLt v cur) c := by
+  induction vs with
+  | nil => intro c; rfl
+  | cons x xs ih =>
+    intro c
+    rw [List.foldl_cons, ih]
+    cases hx : fltIsNaN x with
+    | true => rw [nonNaN_cons_nan hx]; simp only [updMaxF, hx, if_true]
+    | false => rw [nonNaN_cons_ok hx, List.foldl_cons]; simp only [updMaxF, hx, Bool.false_eq_true, if_false]
+
+/-- **A1-F**: the repaired fold on doubles is the generic fold over the non-NaN values -/
+theorem foldMinF_eq (vs : List UInt64) : foldMinF vs = foldMin fltLt (nonNaN vs) := foldl_updMinF vs none
+theorem foldMaxF_eq (vs : List UInt64) : foldMaxF vs = foldMax fltLt (nonNaN vs) := foldl_updMaxF vs none
+
+/-- the bound depends on the non-NaN values only -/
+theorem foldMinF_congr {l l' : List UInt64} (h : nonNaN l = nonNaN l') : foldMinF l = foldMinF l' := by
+  rw [foldMinF_eq, foldMinF_eq, h]
+theorem foldMaxF_congr {l l' : List UInt64} (h : nonNaN l = nonNaN l') : foldMaxF l = foldMaxF l' := by
+  rw [foldMaxF_eq, foldMaxF_eq, h]
+
+/-- **the bound does not depend on where a NaN stands**: inserting a NaN anywhere changes nothing
+    (in particular at the front, the position that used to poison the bound: `foldMin_poisoned`) -/
+theorem foldMinF_insert_nan (l₁ l₂ : List UInt64) (nan : UInt64) (h : fltIsNaN nan = true) :
+    foldMinF (l₁ ++ nan :: l₂) = foldMinF (l₁ ++ l₂) := by
+  apply foldMinF_congr
+  have := nonNaN_insert l₁ l₂ [nan] (by simpa using h)
+  simpa using this
+
+theorem foldMaxF_insert_nan (l₁ l₂ : List UInt64) (nan : UInt64) (h : fltIsNaN nan = true) :
+    foldMaxF (l₁ ++ nan :: l₂) = foldMaxF (l₁ ++ l₂) := by
+  apply foldMaxF_congr
+  have := nonNaN_insert l₁ l₂ [nan] (by simpa using h)
+  simpa using this
+
+theorem bounds_order_independent_of_nan (l₁ l₂ : List UInt64) (nan : UInt64) (h : fltIsNaN nan = true) :
+    foldMinF (l₁ ++ nan :: l₂) = foldMinF (l₁ ++ l₂) ∧ foldMaxF (l₁ ++ nan :: l₂) = foldMaxF (l₁ ++ l₂) :=
+  ⟨foldMinF_insert_nan l₁ l₂ nan h, foldMaxF_insert_nan l₁ l₂ nan h⟩
+
+/-- no hypothesis at all: what the fold stores is a value of the sequence and is not a NaN -/
+theorem foldMinF_not_nan (vs : List UInt64) (b : UInt64) (h : foldMinF vs = some b) :
+    b ∈ vs ∧ fltIsNaN b = false := by
+  rw [foldMinF_eq] at h; exact mem_nonNaN.1 (foldMin_mem _ _ b h)
+
+theorem foldMaxF_not_nan (vs : List UInt64) (b : UInt64) (h : foldMaxF vs = some b) :
+    b ∈ vs ∧ fltIsNaN b = false := by
+  rw [foldMaxF_eq] at h; exact mem_nonNaN.1 (foldMax_mem _ _ b h)
+
+/-- nothing is stored exactly when every value is a NaN (or there is none) -/
+theorem foldMinF_eq_none (vs : List UInt64) : foldMinF vs = none ↔ ∀ v ∈ vs, fltIsNaN v = true := by
+  rw [foldMinF_eq, foldMin_eq_none, nonNaN_eq_nil]
+theorem foldMaxF_eq_none (vs : List UInt64) : foldMaxF vs = none ↔ ∀ v ∈ vs, fltIsNaN v = true := by
+  rw [foldMaxF_eq, foldMax_eq_none, nonNaN_eq_nil]
+
+/-- **A1-F (minimum)**: as soon as one value is not a NaN, the fold stores a non-NaN value of the
+    sequence below which no non-NaN value lies.  The VALUES may contain NaNs anywhere; only the order
+    facts about IEEE `<` on non-NaN doubles are assumed. -/
+theorem foldMinF_spec (h : StrictOn NotNaN fltLt) (vs : List UInt64) (hne : nonNaN vs ≠ []) :
+    ∃ m, foldMinF vs = some m ∧ m ∈ vs ∧ fltIsNaN m = false ∧
+      ∀ v ∈ vs, fltIsNaN v = false → fltLt v m = false := by
+  obtain ⟨m, h1, h2, h3⟩ := foldMin_spec h (nonNaN vs) (nonNaN_notNaN vs) hne
+  exact ⟨m, by rw [foldMinF_eq, h1], (mem_nonNaN.1 h2).1, (mem_nonNaN.1 h2).2,
+    fun v hv hn => h3 v (mem_nonNaN.2 ⟨hv, hn⟩)⟩
+
+theorem foldMaxF_spec (h : StrictOn NotNaN fltLt) (vs : List UInt64) (hne : nonNaN vs ≠ []) :
+    ∃ m, foldMaxF vs = some m ∧ m ∈ vs ∧ fltIsNaN m = false ∧
+      ∀ v ∈ vs, fltIsNaN v = false → fltLt m v = false := by
+  obtain ⟨m, h1, h2, h3⟩ := foldMax_spec h (nonNaN vs) (nonNaN_notNaN vs) hne
+  exact ⟨m, by rw [foldMaxF_eq, h1], (mem_nonNaN.1 h2).1, (mem_nonNaN.1 h2).2,
+    fun v hv hn => h3 v (mem_nonNaN.2 ⟨hv, hn⟩)⟩
+
+/-- **A1-F (first occurrence)**: among the non-NaN values the stored minimum is the first attaining it -/
+theorem foldMinF_first (h : StrictWeakOn NotNaN fltLt) (vs : List UInt64) (hne : nonNaN vs ≠ []) :
+    ∃ m pre post, foldMinF vs = some m ∧ nonNaN vs = pre ++ m :: post ∧
+      (∀ v ∈ pre, fltLt m v = true) ∧ (∀ v ∈ post, fltLt v m = false) := by
+  rw [foldMinF_eq]; exact foldMin_first h (nonNaN vs) (nonNaN_notNaN vs) hne
+
+theorem foldMaxF_first (h : StrictWeakOn NotNaN fltLt) (vs : List UInt64) (hne : nonNaN vs ≠ []) :
+    ∃ m pre post, foldMaxF vs = some m ∧ nonNaN vs = pre ++ m :: post ∧
+      (∀ v ∈ pre, fltLt v m = true) ∧ (∀ v ∈ post, fltLt m v = false) := by
+  rw [foldMaxF_eq]; exact foldMax_first h (nonNaN vs) (nonNaN_notNaN vs) hne
 
 /-! ## A2: the integer (index) bounds are the exact minimum and maximum -/
 
@@ -1449,7 +1685,12 @@ theorem updateBounds_eq (pc : PointCloud) (r : Record) (v : Value) :
 
 /-! ## A3: the bounds kept by the writer are these folds -/
 
-/-- one step of a tracked minimum: records named `n` contribute their value -/
+/-- one step of a tracked bound with update function `upd`: records named `n` contribute their value -/
+def stepUpd {α : Type} (upd : α → Option α → Option α) (toV : Value → DataType → Option α) (n : RecordName)
+    (r : Record) (v : Value) (c : Option α) : Option α :=
+  if r.name = n then (match toV v r.dt with | some f => upd f c | none => c) else c
+
+/-- one step of a tracked minimum (generic `update_min`; used for the index bounds) -/
 def stepMin {α : Type} (lt : α → α → Bool) (toV : Value → DataType → Option α) (n : RecordName)
     (r : Record) (v : Value) (c : Option α) : Option α :=
   if r.name = n then (match toV v r.dt with | some f => updMinG lt f c | none => c) else c
@@ -1457,6 +1698,15 @@ def stepMin {α : Type} (lt : α → α → Bool) (toV : Value → DataType → 
 def stepMax {α : Type} (lt : α → α → Bool) (toV : Value → DataType → Option α) (n : RecordName)
     (r : Record) (v : Value) (c : Option α) : Option α :=
   if r.name = n then (match toV v r.dt with | some f => updMaxG lt f c | none => c) else c
+
+theorem stepMin_eq_stepUpd {α : Type} (lt : α → α → Bool) (toV : Value → DataType → Option α) (n : RecordName) :
+    stepMin lt toV n = stepUpd (updMinG lt) toV n := rfl
+theorem stepMax_eq_stepUpd {α : Type} (lt : α → α → Bool) (toV : Value → DataType → Option α) (n : RecordName) :
+    stepMax lt toV n = stepUpd (updMaxG lt) toV n := rfl
+
+/-- one step of a tracked `f64` minimum / maximum: the repaired `update_min` / `update_max`, which skip NaN -/
+abbrev stepMinF := stepUpd updMinF Value.toF64
+abbrev stepMaxF := stepUpd updMaxF Value.toF64
 
 def PointCloud.xMin (pc : PointCloud) := pc.cartesianBounds.bind (·.xMin)
 def PointCloud.xMax (pc : PointCloud) := pc.cartesianBounds.bind (·.xMax)
@@ -1479,18 +1729,18 @@ def PointCloud.returnMax (pc : PointCloud) := pc.indexBounds.bind (·.returnMax)
 
 /-- the effect of one successful `updateBounds` on every tracked bound -/
 structure FieldsStep (pc pc' : PointCloud) (r : Record) (v : Value) : Prop where
-  xMin : pc'.xMin = stepMin fltLt Value.toF64 .cartesianX r v pc.xMin
-  xMax : pc'.xMax = stepMax fltLt Value.toF64 .cartesianX r v pc.xMax
-  yMin : pc'.yMin = stepMin fltLt Value.toF64 .cartesianY r v pc.yMin
-  yMax : pc'.yMax = stepMax fltLt Value.toF64 .cartesianY r v pc.yMax
-  zMin : pc'.zMin = stepMin fltLt Value.toF64 .cartesianZ r v pc.zMin
-  zMax : pc'.zMax = stepMax fltLt Value.toF64 .cartesianZ r v pc.zMax
-  rangeMin : pc'.rangeMin = stepMin fltLt Value.toF64 .sphericalRange r v pc.rangeMin
-  rangeMax : pc'.rangeMax = stepMax fltLt Value.toF64 .sphericalRange r v pc.rangeMax
-  elevationMin : pc'.elevationMin = stepMin fltLt Value.toF64 .sphericalElevation r v pc.elevationMin
-  elevationMax : pc'.elevationMax = stepMax fltLt Value.toF64 .sphericalElevation r v pc.elevationMax
-  azimuthStart : pc'.azimuthStart = stepMin fltLt Value.toF64 .sphericalAzimuth r v pc.azimuthStart
-  azimuthEnd : pc'.azimuthEnd = stepMax fltLt Value.toF64 .sphericalAzimuth r v pc.azimuthEnd
+  xMin : pc'.xMin = stepMinF .cartesianX r v pc.xMin
+  xMax : pc'.xMax = stepMaxF .cartesianX r v pc.xMax
+  yMin : pc'.yMin = stepMinF .cartesianY r v pc.yMin
+  yMax : pc'.yMax = stepMaxF .cartesianY r v pc.yMax
+  zMin : pc'.zMin = stepMinF .cartesianZ r v pc.zMin
+  zMax : pc'.zMax = stepMaxF .cartesianZ r v pc.zMax
+  rangeMin : pc'.rangeMin = stepMinF .sphericalRange r v pc.rangeMin
+  rangeMax : pc'.rangeMax = stepMaxF .sphericalRange r v pc.rangeMax
+  elevationMin : pc'.elevationMin = stepMinF .sphericalElevation r v pc.elevationMin
+  elevationMax : pc'.elevationMax = stepMaxF .sphericalElevation r v pc.elevationMax
+  azimuthStart : pc'.azimuthStart = stepMinF .sphericalAzimuth r v pc.azimuthStart
+  azimuthEnd : pc'.azimuthEnd = stepMaxF .sphericalAzimuth r v pc.azimuthEnd
   rowMin : pc'.rowMin = stepMin ltI Value.toI64 .rowIndex r v pc.rowMin
   rowMax : pc'.rowMax = stepMax ltI Value.toI64 .rowIndex r v pc.rowMax
   columnMin : pc'.columnMin = stepMin ltI Value.toI64 .columnIndex r v pc.columnMin
@@ -1509,14 +1759,14 @@ theorem updateBounds_fields (pc pc' : PointCloud) (r : Record) (v : Value)
   cases hn : r.name <;> simp only [hn] at h
   all_goals first
     | (cases h
-       constructor <;> simp [stepMin, stepMax, hn])
+       constructor <;> simp [stepMin, stepMax, stepUpd, hn])
     | (split at h
        · cases h
        · cases h
        · next f b hf hb =>
          cases h
          constructor <;>
-           simp [stepMin, stepMax, hn, hf, hb, PointCloud.xMin, PointCloud.xMax, PointCloud.yMin, PointCloud.yMax, PointCloud.zMin, PointCloud.zMax, PointCloud.rangeMin, PointCloud.rangeMax, PointCloud.elevationMin, PointCloud.elevationMax, PointCloud.azimuthStart, PointCloud.azimuthEnd, PointCloud.rowMin, PointCloud.rowMax, PointCloud.columnMin, PointCloud.columnMax, PointCloud.returnMin, PointCloud.returnMax, updMinF, updMaxF, updMinI, updMaxI] <;> rfl)
+           simp [stepMin, stepMax, stepUpd, hn, hf, hb, PointCloud.xMin, PointCloud.xMax, PointCloud.yMin, PointCloud.yMax, PointCloud.zMin, PointCloud.zMax, PointCloud.rangeMin, PointCloud.rangeMax, PointCloud.elevationMin, PointCloud.elevationMax, PointCloud.azimuthStart, PointCloud.azimuthEnd, PointCloud.rowMin, PointCloud.rowMax, PointCloud.columnMin, PointCloud.columnMax, PointCloud.returnMin, PointCloud.returnMax, updMinI, updMaxI] <;> rfl)
 
 
 /-- `get` is maintained by `updateBounds` through `step` -/
@@ -1580,6 +1830,22 @@ theorem foldl_stepMin {α : Type} (lt : α → α → Bool) (toV : Value → Dat
       cases toV a.2 a.1.dt <;> rfl
     · simp only [hn, if_false]
 
+theorem foldl_stepUpd {α : Type} (upd : α → Option α → Option α) (toV : Value → DataType → Option α)
+    (n : RecordName) (l : List (Record × Value)) : ∀ (c : Option α),
+    l.foldl (fun c rv => stepUpd upd toV n rv.1 rv.2 c) c =
+      (l.filterMap (fun rv => if rv.1.name = n then toV rv.2 rv.1.dt else none)).foldl
+        (fun c v => upd v c) c := by
+  induction l with
+  | nil => intro c; rfl
+  | cons a as ih =>
+    intro c
+    rw [List.foldl_cons, ih, List.filterMap_cons]
+    unfold stepUpd
+    by_cases hn : a.1.name = n
+    · simp only [hn, if_true]
+      cases toV a.2 a.1.dt <;> rfl
+    · simp only [hn, if_false]
+
 theorem stepMax_eq_flip {α : Type} (lt : α → α → Bool) (toV : Value → DataType → Option α) (n : RecordName) :
     stepMax lt toV n = stepMin (fun a b => lt b a) toV n := by
   funext r v c
@@ -1607,6 +1873,17 @@ theorem foldBounds_min {α : Type} {get : PointCloud → Option α} {lt : α →
   congr 1
   funext c pt
   exact foldl_stepMin lt toV n (p.zip pt) c
+
+/-- a bound tracked through any update function is the fold of that function over all values -/
+theorem foldBounds_upd {α : Type} {get : PointCloud → Option α} {upd : α → Option α → Option α}
+    {toV : Value → DataType → Option α} {n : RecordName} (ht : Tracks get (stepUpd upd toV n))
+    (p : Prototype) (pts : List (List Value)) (pc pc' : PointCloud)
+    (h : foldBounds p pts pc = .ok pc') :
+    get pc' = (allVals toV n p pts).foldl (fun c v => upd v c) (get pc) := by
+  rw [foldBounds_tracks ht p pts pc pc' h, allVals, foldl_flatMap']
+  congr 1
+  funext c pt
+  exact foldl_stepUpd upd toV n (p.zip pt) c
 
 theorem foldBounds_max {α : Type} {get : PointCloud → Option α} {lt : α → α → Bool}
     {toV : Value → DataType → Option α} {n : RecordName} (ht : Tracks get (stepMax lt toV n))
@@ -1842,21 +2119,23 @@ abbrev fvals (n : RecordName) (p : Prototype) (pts : List (List Value)) : List U
 abbrev ivals (n : RecordName) (p : Prototype) (pts : List (List Value)) : List Int :=
   allVals Value.toI64 n p pts
 
-/-- every bound is the `update_min` / `update_max` fold over the values added; the bounds structures
-    are present exactly for the coordinate groups of the prototype -/
+/-- every bound is the `update_min` / `update_max` fold over the values added — for the twelve float
+    bounds over the values that are not NaN (`nonNaN`: a NaN is never taken as a bound, wherever it
+    stands; equivalently `foldMinF`/`foldMaxF` over all values, `BoundsExact.xMinF`); the bounds
+    structures are present exactly for the coordinate groups of the prototype -/
 structure BoundsExact (p : Prototype) (pts : List (List Value)) (pc : PointCloud) : Prop where
-  xMin : pc.xMin = foldMin fltLt (fvals .cartesianX p pts)
-  xMax : pc.xMax = foldMax fltLt (fvals .cartesianX p pts)
-  yMin : pc.yMin = foldMin fltLt (fvals .cartesianY p pts)
-  yMax : pc.yMax = foldMax fltLt (fvals .cartesianY p pts)
-  zMin : pc.zMin = foldMin fltLt (fvals .cartesianZ p pts)
-  zMax : pc.zMax = foldMax fltLt (fvals .cartesianZ p pts)
-  rangeMin : pc.rangeMin = foldMin fltLt (fvals .sphericalRange p pts)
-  rangeMax : pc.rangeMax = foldMax fltLt (fvals .sphericalRange p pts)
-  elevationMin : pc.elevationMin = foldMin fltLt (fvals .sphericalElevation p pts)
-  elevationMax : pc.elevationMax = foldMax fltLt (fvals .sphericalElevation p pts)
-  azimuthStart : pc.azimuthStart = foldMin fltLt (fvals .sphericalAzimuth p pts)
-  azimuthEnd : pc.azimuthEnd = foldMax fltLt (fvals .sphericalAzimuth p pts)
+  xMin : pc.xMin = foldMin fltLt (nonNaN (fvals .cartesianX p pts))
+  xMax : pc.xMax = foldMax fltLt (nonNaN (fvals .cartesianX p pts))
+  yMin : pc.yMin = foldMin fltLt (nonNaN (fvals .cartesianY p pts))
+  yMax : pc.yMax = foldMax fltLt (nonNaN (fvals .cartesianY p pts))
+  zMin : pc.zMin = foldMin fltLt (nonNaN (fvals .cartesianZ p pts))
+  zMax : pc.zMax = foldMax fltLt (nonNaN (fvals .cartesianZ p pts))
+  rangeMin : pc.rangeMin = foldMin fltLt (nonNaN (fvals .sphericalRange p pts))
+  rangeMax : pc.rangeMax = foldMax fltLt (nonNaN (fvals .sphericalRange p pts))
+  elevationMin : pc.elevationMin = foldMin fltLt (nonNaN (fvals .sphericalElevation p pts))
+  elevationMax : pc.elevationMax = foldMax fltLt (nonNaN (fvals .sphericalElevation p pts))
+  azimuthStart : pc.azimuthStart = foldMin fltLt (nonNaN (fvals .sphericalAzimuth p pts))
+  azimuthEnd : pc.azimuthEnd = foldMax fltLt (nonNaN (fvals .sphericalAzimuth p pts))
   rowMin : pc.rowMin = foldMin ltI (ivals .rowIndex p pts)
   rowMax : pc.rowMax = foldMax ltI (ivals .rowIndex p pts)
   columnMin : pc.columnMin = foldMin ltI (ivals .columnIndex p pts)
@@ -1909,41 +2188,41 @@ theorem freshPc_returnMax (p : Prototype) (cl : Option ColorLimits) : (freshPc p
 theorem foldBounds_exact (p : Prototype) (cl : Option ColorLimits) (pts : List (List Value))
     (pc' : PointCloud) (h : foldBounds p pts (freshPc p cl) = .ok pc') : BoundsExact p pts pc' where
   xMin := by
-    rw [foldBounds_min (get := PointCloud.xMin) (fun pc pc' r v h => (updateBounds_fields pc pc' r v h).xMin) p pts _ pc' h,
-      freshPc_xMin]; rfl
+    rw [foldBounds_upd (get := PointCloud.xMin) (fun pc pc' r v h => (updateBounds_fields pc pc' r v h).xMin) p pts _ pc' h,
+      freshPc_xMin, foldl_updMinF]; rfl
   xMax := by
-    rw [foldBounds_max (get := PointCloud.xMax) (fun pc pc' r v h => (updateBounds_fields pc pc' r v h).xMax) p pts _ pc' h,
-      freshPc_xMax]; rfl
+    rw [foldBounds_upd (get := PointCloud.xMax) (fun pc pc' r v h => (updateBounds_fields pc pc' r v h).xMax) p pts _ pc' h,
+      freshPc_xMax, foldl_updMaxF]; rfl
   yMin := by
-    rw [foldBounds_min (get := PointCloud.yMin) (fun pc pc' r v h => (updateBounds_fields pc pc' r v h).yMin) p pts _ pc' h,
-      freshPc_yMin]; rfl
+    rw [foldBounds_upd (get := PointCloud.yMin) (fun pc pc' r v h => (updateBounds_fields pc pc' r v h).yMin) p pts _ pc' h,
+      freshPc_yMin, foldl_updMinF]; rfl
   yMax := by
-    rw [foldBounds_max (get := PointCloud.yMax) (fun pc pc' r v h => (updateBounds_fields pc pc' r v h).yMax) p pts _ pc' h,
-      freshPc_yMax]; rfl
+    rw [foldBounds_upd (get := PointCloud.yMax) (fun pc pc' r v h => (updateBounds_fields pc pc' r v h).yMax) p pts _ pc' h,
+      freshPc_yMax, foldl_updMaxF]; rfl
   zMin := by
-    rw [foldBounds_min (get := PointCloud.zMin) (fun pc pc' r v h => (updateBounds_fields pc pc' r v h).zMin) p pts _ pc' h,
-      freshPc_zMin]; rfl
+    rw [foldBounds_upd (get := PointCloud.zMin) (fun pc pc' r v h => (updateBounds_fields pc pc' r v h).zMin) p pts _ pc' h,
+      freshPc_zMin, foldl_updMinF]; rfl
   zMax := by
-    rw [foldBounds_max (get := PointCloud.zMax) (fun pc pc' r v h => (updateBounds_fields pc pc' r v h).zMax) p pts _ pc' h,
-      freshPc_zMax]; rfl
+    rw [foldBounds_upd (get := PointCloud.zMax) (fun pc pc' r v h => (updateBounds_fields pc pc' r v h).zMax) p pts _ pc' h,
+      freshPc_zMax, foldl_updMaxF]; rfl
   rangeMin := by
-    rw [foldBounds_min (get := PointCloud.rangeMin) (fun pc pc' r v h => (updateBounds_fields pc pc' r v h).rangeMin) p pts _ pc' h,
-      freshPc_rangeMin]; rfl
+    rw [foldBounds_upd (get := PointCloud.rangeMin) (fun pc pc' r v h => (updateBounds_fields pc pc' r v h).rangeMin) p pts _ pc' h,
+      freshPc_rangeMin, foldl_updMinF]; rfl
   rangeMax := by
-    rw [foldBounds_max (get := PointCloud.rangeMax) (fun pc pc' r v h => (updateBounds_fields pc pc' r v h).rangeMax) p pts _ pc' h,
-      freshPc_rangeMax]; rfl
+    rw [foldBounds_upd (get := PointCloud.rangeMax) (fun pc pc' r v h => (updateBounds_fields pc pc' r v h).rangeMax) p pts _ pc' h,
+      freshPc_rangeMax, foldl_updMaxF]; rfl
   elevationMin := by
-    rw [foldBounds_min (get := PointCloud.elevationMin) (fun pc pc' r v h => (updateBounds_fields pc pc' r v h).elevationMin) p pts _ pc' h,
-      freshPc_elevationMin]; rfl
+    rw [foldBounds_upd (get := PointCloud.elevationMin) (fun pc pc' r v h => (updateBounds_fields pc pc' r v h).elevationMin) p pts _ pc' h,
+      freshPc_elevationMin, foldl_updMinF]; rfl
   elevationMax := by
-    rw [foldBounds_max (get := PointCloud.elevationMax) (fun pc pc' r v h => (updateBounds_fields pc pc' r v h).elevationMax) p pts _ pc' h,
-      freshPc_elevationMax]; rfl
+    rw [foldBounds_upd (get := PointCloud.elevationMax) (fun pc pc' r v h => (updateBounds_fields pc pc' r v h).elevationMax) p pts _ pc' h,
+      freshPc_elevationMax, foldl_updMaxF]; rfl
   azimuthStart := by
-    rw [foldBounds_min (get := PointCloud.azimuthStart) (fun pc pc' r v h => (updateBounds_fields pc pc' r v h).azimuthStart) p pts _ pc' h,
-      freshPc_azimuthStart]; rfl
+    rw [foldBounds_upd (get := PointCloud.azimuthStart) (fun pc pc' r v h => (updateBounds_fields pc pc' r v h).azimuthStart) p pts _ pc' h,
+      freshPc_azimuthStart, foldl_updMinF]; rfl
   azimuthEnd := by
-    rw [foldBounds_max (get := PointCloud.azimuthEnd) (fun pc pc' r v h => (updateBounds_fields pc pc' r v h).azimuthEnd) p pts _ pc' h,
-      freshPc_azimuthEnd]; rfl
+    rw [foldBounds_upd (get := PointCloud.azimuthEnd) (fun pc pc' r v h => (updateBounds_fields pc pc' r v h).azimuthEnd) p pts _ pc' h,
+      freshPc_azimuthEnd, foldl_updMaxF]; rfl
   rowMin := by
     rw [foldBounds_min (get := PointCloud.rowMin) (fun pc pc' r v h => (updateBounds_fields pc pc' r v h).rowMin) p pts _ pc' h,
       freshPc_rowMin]; rfl
@@ -2043,15 +2322,147 @@ theorem fields_of_idx (pc : PointCloud) (b : IndexBounds) (h : pc.indexBounds = 
   simp [PointCloud.rowMin, PointCloud.rowMax, PointCloud.columnMin, PointCloud.columnMax,
     PointCloud.returnMin, PointCloud.returnMax, h]
 
-/-- example of the combined statement (A1 + A3) for one float bound: for any property `S` ("not NaN")
-    on which the IEEE comparison is a strict order, the stored `xMin` is an added value below which
-    no added value lies -/
-theorem xMin_is_minimum (S : UInt64 → Prop) (hS : StrictOn S fltLt) (p : Prototype)
+/-- the float bounds in the form "fold of the repaired `update_min`/`update_max` over ALL values" -/
+theorem BoundsExact.xMinF {p : Prototype} {pts : List (List Value)} {pc : PointCloud}
+    (h : BoundsExact p pts pc) : pc.xMin = foldMinF (fvals .cartesianX p pts) := by
+  rw [h.xMin, foldMinF_eq]
+theorem BoundsExact.xMaxF {p : Prototype} {pts : List (List Value)} {pc : PointCloud}
+    (h : BoundsExact p pts pc) : pc.xMax = foldMaxF (fvals .cartesianX p pts) := by
+  rw [h.xMax, foldMaxF_eq]
+
+/-- example of the combined statement (A1 + A3) for one float bound.  The POINTS may contain NaNs
+    anywhere (nothing is assumed about the values); the only hypothesis is that the IEEE comparison is
+    a strict order on the non-NaN doubles.  As soon as one X value is not a NaN, the stored `xMin` is a
+    non-NaN X value that was added and no non-NaN X value lies below it. -/
+theorem xMin_is_minimum (hS : StrictOn NotNaN fltLt) (p : Prototype)
     (pts : List (List Value)) (pc : PointCloud) (h : BoundsExact p pts pc)
-    (hall : ∀ v ∈ fvals .cartesianX p pts, S v) (hne : fvals .cartesianX p pts ≠ []) :
-    ∃ m, pc.xMin = some m ∧ m ∈ fvals .cartesianX p pts ∧
-      ∀ v ∈ fvals .cartesianX p pts, fltLt v m = false := by
-  rw [h.xMin]; exact foldMin_spec hS _ hall hne
+    (hne : nonNaN (fvals .cartesianX p pts) ≠ []) :
+    ∃ m, pc.xMin = some m ∧ m ∈ fvals .cartesianX p pts ∧ fltIsNaN m = false ∧
+      ∀ v ∈ fvals .cartesianX p pts, fltIsNaN v = false → fltLt v m = false := by
+  rw [h.xMinF]; exact foldMinF_spec hS _ hne
+
+theorem xMax_is_maximum (hS : StrictOn NotNaN fltLt) (p : Prototype)
+    (pts : List (List Value)) (pc : PointCloud) (h : BoundsExact p pts pc)
+    (hne : nonNaN (fvals .cartesianX p pts) ≠ []) :
+    ∃ m, pc.xMax = some m ∧ m ∈ fvals .cartesianX p pts ∧ fltIsNaN m = false ∧
+      ∀ v ∈ fvals .cartesianX p pts, fltIsNaN v = false → fltLt m v = false := by
+  rw [h.xMaxF]; exact foldMaxF_spec hS _ hne
+
+/-- when every X value is a NaN (or there is none) no X bound is stored (it used to be NaN) -/
+theorem xMin_none_iff (p : Prototype) (pts : List (List Value)) (pc : PointCloud)
+    (h : BoundsExact p pts pc) :
+    pc.xMin = none ↔ ∀ v ∈ fvals .cartesianX p pts, fltIsNaN v = true := by
+  rw [h.xMinF]; exact foldMinF_eq_none _
+
+/-! ### no stored float bound is a NaN; NaN points do not move the bounds -/
+
+/-- the twelve float bounds -/
+def PointCloud.floatBounds (pc : PointCloud) : List (Option UInt64) :=
+  [pc.xMin, pc.xMax, pc.yMin, pc.yMax, pc.zMin, pc.zMax, pc.rangeMin, pc.rangeMax,
+   pc.elevationMin, pc.elevationMax, pc.azimuthStart, pc.azimuthEnd]
+
+/-- no hypothesis on the order or on the points: none of the twelve float bounds is a NaN -/
+theorem BoundsExact.no_nan {p : Prototype} {pts : List (List Value)} {pc : PointCloud}
+    (h : BoundsExact p pts pc) : ∀ o ∈ pc.floatBounds, ∀ b, o = some b → fltIsNaN b = false := by
+  have hmin : ∀ (vs : List UInt64) (o : Option UInt64), o = foldMin fltLt (nonNaN vs) →
+      ∀ b, o = some b → fltIsNaN b = false := by
+    intro vs o ho b hb
+    exact (mem_nonNaN.1 (foldMin_mem _ _ b (ho.symm.trans hb))).2
+  have hmax : ∀ (vs : List UInt64) (o : Option UInt64), o = foldMax fltLt (nonNaN vs) →
+      ∀ b, o = some b → fltIsNaN b = false := by
+    intro vs o ho b hb
+    exact (mem_nonNaN.1 (foldMax_mem _ _ b (ho.symm.trans hb))).2
+  intro o ho
+  simp only [PointCloud.floatBounds, List.mem_cons, List.not_mem_nil, or_false] at ho
+  rcases ho with rfl | rfl | rfl | rfl | rfl | rfl | rfl | rfl | rfl | rfl | rfl | rfl
+  · exact hmin _ _ h.xMin
+  · exact hmax _ _ h.xMax
+  · exact hmin _ _ h.yMin
+  · exact hmax _ _ h.yMax
+  · exact hmin _ _ h.zMin
+  · exact hmax _ _ h.zMax
+  · exact hmin _ _ h.rangeMin
+  · exact hmax _ _ h.rangeMax
+  · exact hmin _ _ h.elevationMin
+  · exact hmax _ _ h.elevationMax
+  · exact hmin _ _ h.azimuthStart
+  · exact hmax _ _ h.azimuthEnd
+
+/-- **NaN is never a bound (writer)**: after `new` and ANY sequence of accepted `add_point` calls
+    (NaN coordinates in any position, the first point included) none of the twelve float bounds
+    stored in the metadata is a NaN -/
+theorem nan_never_a_bound (pw : PW) (exts : List (String × String)) (guid : String) (proto : Prototype)
+    (hpw : pw.Inv) (pw0 : PW) (w0 : PcW) (hnew : PcW.new pw exts guid proto = .ok (pw0, w0))
+    (pts : List (List Value)) (pw1 : PW) (w1 : PcW) (hadd : addPoints pts (pw0, w0) = .ok (pw1, w1)) :
+    ∀ o ∈ w1.pc.floatBounds, ∀ b, o = some b → fltIsNaN b = false :=
+  (bounds_exact pw exts guid proto hpw pw0 w0 hnew pts pw1 w1 hadd).1.no_nan
+
+/-- the same, bound by bound -/
+theorem nan_never_a_bound_fields (pw : PW) (exts : List (String × String)) (guid : String) (proto : Prototype)
+    (hpw : pw.Inv) (pw0 : PW) (w0 : PcW) (hnew : PcW.new pw exts guid proto = .ok (pw0, w0))
+    (pts : List (List Value)) (pw1 : PW) (w1 : PcW) (hadd : addPoints pts (pw0, w0) = .ok (pw1, w1)) :
+    (∀ b, w1.pc.xMin = some b → fltIsNaN b = false) ∧ (∀ b, w1.pc.xMax = some b → fltIsNaN b = false) ∧
+    (∀ b, w1.pc.yMin = some b → fltIsNaN b = false) ∧ (∀ b, w1.pc.yMax = some b → fltIsNaN b = false) ∧
+    (∀ b, w1.pc.zMin = some b → fltIsNaN b = false) ∧ (∀ b, w1.pc.zMax = some b → fltIsNaN b = false) ∧
+    (∀ b, w1.pc.rangeMin = some b → fltIsNaN b = false) ∧ (∀ b, w1.pc.rangeMax = some b → fltIsNaN b = false) ∧
+    (∀ b, w1.pc.elevationMin = some b → fltIsNaN b = false) ∧
+    (∀ b, w1.pc.elevationMax = some b → fltIsNaN b = false) ∧
+    (∀ b, w1.pc.azimuthStart = some b → fltIsNaN b = false) ∧
+    (∀ b, w1.pc.azimuthEnd = some b → fltIsNaN b = false) := by
+  have h := nan_never_a_bound pw exts guid proto hpw pw0 w0 hnew pts pw1 w1 hadd
+  refine ⟨?_, ?_, ?_, ?_, ?_, ?_, ?_, ?_, ?_, ?_, ?_, ?_⟩ <;>
+    exact fun b hb => h _ (by simp [PointCloud.floatBounds]) b hb
+
+/-- the values of record `n` over a sequence with one more point in the middle -/
+theorem allVals_insert {α : Type} (toV : Value → DataType → Option α) (n : RecordName) (p : Prototype)
+    (pts₁ pts₂ : List (List Value)) (pt : List Value) :
+    allVals toV n p (pts₁ ++ pt :: pts₂) =
+      allVals toV n p pts₁ ++ colVals toV n p pt ++ allVals toV n p pts₂ := by
+  simp [allVals, List.flatMap_append]
+
+theorem allVals_append {α : Type} (toV : Value → DataType → Option α) (n : RecordName) (p : Prototype)
+    (pts₁ pts₂ : List (List Value)) :
+    allVals toV n p (pts₁ ++ pts₂) = allVals toV n p pts₁ ++ allVals toV n p pts₂ := by
+  simp [allVals, List.flatMap_append]
+
+/-- a point whose values for record `n` are all NaN contributes nothing to the non-NaN values of `n`,
+    wherever it is inserted (any record name) -/
+theorem nonNaN_fvals_insert (n : RecordName) (p : Prototype) (pts₁ pts₂ : List (List Value))
+    (pt : List Value) (hnan : ∀ v ∈ colVals Value.toF64 n p pt, fltIsNaN v = true) :
+    nonNaN (fvals n p (pts₁ ++ pt :: pts₂)) = nonNaN (fvals n p (pts₁ ++ pts₂)) := by
+  rw [fvals, fvals, allVals_insert, allVals_append]
+  exact nonNaN_insert _ _ _ hnan
+
+/-- **the bounds do not depend on where a NaN point stands**: two accepted sequences that differ by
+    one point whose X is NaN, inserted ANYWHERE (the front included), store the same `xMin` and `xMax` -/
+theorem xBounds_independent_of_nan_point (p : Prototype) (pts₁ pts₂ : List (List Value)) (pt : List Value)
+    (pc pc' : PointCloud) (h : BoundsExact p (pts₁ ++ pt :: pts₂) pc) (h' : BoundsExact p (pts₁ ++ pts₂) pc')
+    (hnan : ∀ v ∈ colVals Value.toF64 .cartesianX p pt, fltIsNaN v = true) :
+    pc.xMin = pc'.xMin ∧ pc.xMax = pc'.xMax := by
+  rw [h.xMin, h'.xMin, h.xMax, h'.xMax, nonNaN_fvals_insert .cartesianX p pts₁ pts₂ pt hnan]
+  exact ⟨rfl, rfl⟩
+
+/-- the same for two writer sessions on the same prototype: the accepted sequence with a NaN-X point
+    inserted anywhere and the sequence without it end with the same X bounds -/
+theorem nan_point_moves_no_x_bound (pw : PW) (exts : List (String × String)) (guid : String)
+    (proto : Prototype) (hpw : pw.Inv) (pw0 : PW) (w0 : PcW)
+    (hnew : PcW.new pw exts guid proto = .ok (pw0, w0))
+    (pts₁ pts₂ : List (List Value)) (pt : List Value) (pw1 pw1' : PW) (w1 w1' : PcW)
+    (hadd : addPoints (pts₁ ++ pt :: pts₂) (pw0, w0) = .ok (pw1, w1))
+    (hadd' : addPoints (pts₁ ++ pts₂) (pw0, w0) = .ok (pw1', w1'))
+    (hnan : ∀ v ∈ colVals Value.toF64 .cartesianX proto pt, fltIsNaN v = true) :
+    w1.pc.xMin = w1'.pc.xMin ∧ w1.pc.xMax = w1'.pc.xMax :=
+  xBounds_independent_of_nan_point proto pts₁ pts₂ pt w1.pc w1'.pc
+    (bounds_exact pw exts guid proto hpw pw0 w0 hnew _ pw1 w1 hadd).1
+    (bounds_exact pw exts guid proto hpw pw0 w0 hnew _ pw1' w1' hadd').1 hnan
+
+/-- more generally: the X bounds of two accepted sequences agree as soon as their non-NaN X values
+    agree (e.g. after moving, adding or deleting any number of NaN points) -/
+theorem xBounds_congr (p : Prototype) (pts pts' : List (List Value)) (pc pc' : PointCloud)
+    (h : BoundsExact p pts pc) (h' : BoundsExact p pts' pc')
+    (he : nonNaN (fvals .cartesianX p pts) = nonNaN (fvals .cartesianX p pts')) :
+    pc.xMin = pc'.xMin ∧ pc.xMax = pc'.xMax := by
+  rw [h.xMin, h'.xMin, h.xMax, h'.xMax, he]; exact ⟨rfl, rfl⟩
 
 /-- example (A2 + A3) for one index bound: the stored `rowMin` is the exact integer minimum -/
 theorem rowMin_is_minimum (p : Prototype) (pts : List (List Value)) (pc : PointCloud)
